@@ -20,11 +20,11 @@
 
 use linfa::prelude::*;
 use linfa::{DatasetBase, Float};
-use linfa_clustering::{GaussianMixtureModel, GmmError, GmmInitMethod};
+use linfa_clustering::{GaussianMixtureModel, GmmError, GmmInitMethod, GmmParams};
 use lvmc_core::refmath::{self, Mat};
 use lvmc_core::{guarded, json, par_sweep, Ctx, Level, Value, Violation};
 use ndarray::{s, Array2, ArrayBase, Data, Ix2, ShapeBuilder};
-use rand::SeedableRng;
+use rand::{RngCore, SeedableRng};
 use rand_xoshiro::Xoshiro256Plus;
 use serde::{Deserialize, Serialize};
 use std::collections::{BTreeMap, BTreeSet};
@@ -898,6 +898,167 @@ fn posterior(wl: &[f64]) -> Vec<f64> {
     wl.iter().map(|v| (v - lse).exp()).collect()
 }
 
+// ------------------------------------------------------------------------------------------
+// builder history: the same logical parameter set built in every order of the setters
+// ------------------------------------------------------------------------------------------
+
+#[derive(Clone, Copy, PartialEq, Eq, Debug)]
+enum Op {
+    Rng,
+    Tol,
+    Reg,
+    Runs,
+    Iters,
+    Init,
+}
+const OPS: [Op; 6] = [Op::Rng, Op::Tol, Op::Reg, Op::Runs, Op::Iters, Op::Init];
+
+fn init_of(s: &str) -> GmmInitMethod {
+    match s {
+        "kmeans" => GmmInitMethod::KMeans,
+        "random" => GmmInitMethod::Random,
+        other => panic!("unknown init {}", other),
+    }
+}
+
+/// Applies one setter; `decoy` writes a value that a later write of the same field must replace.
+fn apply_op(p: GmmParams<f64, Xoshiro256Plus>, op: Op, decoy: bool, case: &Case, cfg: &Cfg) -> GmmParams<f64, Xoshiro256Plus> {
+    match (op, decoy) {
+        (Op::Rng, false) => p.with_rng(Xoshiro256Plus::seed_from_u64(cfg.seed)),
+        (Op::Rng, true) => p.with_rng(Xoshiro256Plus::seed_from_u64(cfg.seed + 1000)),
+        (Op::Tol, false) => p.tolerance(cfg.tol),
+        (Op::Tol, true) => p.tolerance(0.5),
+        (Op::Reg, false) => p.reg_covariance(cfg.reg),
+        (Op::Reg, true) => p.reg_covariance(7.0),
+        (Op::Runs, false) => p.n_runs(cfg.n_runs),
+        (Op::Runs, true) => p.n_runs(9),
+        (Op::Iters, false) => p.max_n_iterations(cfg.max_iter),
+        (Op::Iters, true) => p.max_n_iterations(1),
+        (Op::Init, false) => p.init_method(init_of(&case.init)),
+        (Op::Init, true) => p.init_method(if case.init == "kmeans" { GmmInitMethod::Random } else { GmmInitMethod::KMeans }),
+    }
+}
+
+fn script_text(sc: &[(Op, bool)]) -> String {
+    sc.iter().map(|(o, d)| format!("{:?}{}", o, if *d { "(decoy)" } else { "" })).collect::<Vec<_>>().join(" -> ")
+}
+
+/// Every order of {with_rng, tolerance, reg_covariance, n_runs, max_n_iterations, init_method} (720) plus,
+/// per field, two histories that write a decoy first (last write wins): the values published by the
+/// checked parameter set must be the configured ones; for a sub-family of the histories (with_rng at
+/// every position, the others ascending / descending; the decoy histories) the fit must be bit-identical
+/// to the fit of the canonical history params_with_rng(k, rng).tolerance().reg_covariance()...
+fn run_builder(case: &Case, cfg: &Cfg, cnt: &mut Cnt, viols: &mut Vec<Violation>) -> bool {
+    let cj = |at: Value| single_case_json(case, cfg, at);
+    let cfg_txt = cfg_text(case, cfg);
+    let k = case.n_clusters;
+    let (n, d) = (case.data.len(), case.data[0].len());
+    let rec = Array2::from_shape_fn((n, d), |(i, j)| case.data[i][j]);
+    let ds = DatasetBase::from(rec);
+    cnt.add("fits", 1);
+    let mut scripts: Vec<(Vec<(Op, bool)>, bool)> = Vec::new(); // (history, also fit)
+    for perm in lvmc_core::enumerate::permutations(6) {
+        let sc: Vec<(Op, bool)> = perm.iter().map(|&i| (OPS[i], false)).collect();
+        let others: Vec<usize> = perm.iter().cloned().filter(|&i| i != 0).collect();
+        let fit_too = others.windows(2).all(|w| w[0] < w[1]) || others.windows(2).all(|w| w[0] > w[1]);
+        scripts.push((sc, fit_too));
+    }
+    for f in 0..6 {
+        let rest: Vec<(Op, bool)> = OPS.iter().filter(|&&o| o != OPS[f] && o != Op::Rng).map(|&o| (o, false)).collect();
+        // decoy, with_rng, the others, real value last
+        let mut a = vec![(OPS[f], true)];
+        if OPS[f] != Op::Rng {
+            a.push((Op::Rng, false));
+        }
+        a.extend(rest.iter().cloned());
+        a.push((OPS[f], false));
+        scripts.push((a, true));
+        // decoy and real value first, then the others, with_rng last
+        let mut b = vec![(OPS[f], true), (OPS[f], false)];
+        b.extend(rest.iter().cloned());
+        if OPS[f] != Op::Rng {
+            b.push((Op::Rng, false));
+        }
+        scripts.push((b, true));
+    }
+    let canonical = guarded(|| {
+        GaussianMixtureModel::<f64>::params_with_rng(k, Xoshiro256Plus::seed_from_u64(cfg.seed))
+            .tolerance(cfg.tol)
+            .reg_covariance(cfg.reg)
+            .n_runs(cfg.n_runs)
+            .max_n_iterations(cfg.max_iter)
+            .init_method(init_of(&case.init))
+            .fit(&ds)
+    });
+    let canonical = match canonical {
+        Ok(r) => r,
+        Err(p) => {
+            viols.push(Violation::new("gmm.fit.panic", format!("fit panicked ({}): {}", cfg_txt, p), cj(json!({"phase": "fit"}))));
+            return false;
+        }
+    };
+    match &canonical {
+        Ok(_) => cnt.add("fits_ok", 1),
+        Err(e) => cnt.add(&format!("fit_err.{}", error_kind(e)), 1),
+    }
+    let want_rng = Xoshiro256Plus::seed_from_u64(cfg.seed).next_u64();
+    let mut reported_getter = false;
+    let mut reported_fit = false;
+    for (sc, fit_too) in &scripts {
+        cnt.add("histories", 1);
+        let mut p = GaussianMixtureModel::<f64>::params(k);
+        for &(op, decoy) in sc {
+            p = apply_op(p, op, decoy, case, cfg);
+        }
+        let at = cj(json!({"phase": "builder", "history": script_text(sc)}));
+        match p.check_ref() {
+            Err(e) => {
+                if !reported_getter {
+                    reported_getter = true;
+                    viols.push(Violation::new("gmm.params.builder_order_dependence", format!("{}: history {} is rejected by check(): {}", cfg_txt, script_text(sc), e), at.clone()));
+                }
+            }
+            Ok(c) => {
+                let got = format!(
+                    "n_clusters {} tolerance {:e} reg_covar {:e} n_runs {} max_n_iterations {} init {:?} rng {}",
+                    c.n_clusters(), c.tolerance(), c.reg_covariance(), c.n_runs(), c.max_n_iterations(), c.init_method(), c.rng().next_u64()
+                );
+                let want = format!(
+                    "n_clusters {} tolerance {:e} reg_covar {:e} n_runs {} max_n_iterations {} init {:?} rng {}",
+                    k, cfg.tol, cfg.reg, cfg.n_runs, cfg.max_iter, init_of(&case.init), want_rng
+                );
+                if got != want && !reported_getter {
+                    reported_getter = true;
+                    viols.push(Violation::new(
+                        "gmm.params.builder_order_dependence",
+                        format!("{}: after the history {} the checked parameters publish [{}] instead of the configured [{}]", cfg_txt, script_text(sc), got, want),
+                        at.clone(),
+                    ));
+                }
+            }
+        }
+        if !*fit_too {
+            continue;
+        }
+        cnt.add("history_fits", 1);
+        let r = guarded(|| p.fit(&ds));
+        let differs = match (&canonical, &r) {
+            (_, Err(pn)) => Some(format!("panicked: {}", pn)),
+            (Ok(m0), Ok(Ok(m1))) => if m0 == m1 { None } else { Some(format!("gives another model (weights {:?} vs canonical {:?})", m1.weights().to_vec(), m0.weights().to_vec())) },
+            (Err(e0), Ok(Err(e1))) => if error_kind(e0) == error_kind(e1) { None } else { Some(format!("gives Err({}) vs canonical Err({})", e1, e0)) },
+            (Ok(_), Ok(Err(e1))) => Some(format!("gives Err({}) while the canonical history gives a model", e1)),
+            (Err(e0), Ok(Ok(_))) => Some(format!("gives a model while the canonical history gives Err({})", e0)),
+        };
+        if let Some(what) = differs {
+            if !reported_fit {
+                reported_fit = true;
+                viols.push(Violation::new("gmm.params.builder_order_dependence", format!("{}: the fit of the parameter set built by the history {} {}", cfg_txt, script_text(sc), what), at));
+            }
+        }
+    }
+    true
+}
+
 const LAYOUTS: [&str; 4] = ["f_order_owned", "transposed_view_of_feature_major", "reversed_rows_view_of_reversed_copy", "every_second_row_view_nan_filler"];
 
 /// Calls `f` with the logical matrix `m` stored in the named memory layout.
@@ -1151,6 +1312,7 @@ fn run_case(case: &Case, viols: &mut Vec<Violation>) -> (Cnt, u64, u64) {
     for cfg in case.configs() {
         let nt = match (case.kind.as_str(), case.float.as_str()) {
             ("ladder", _) => run_ladder(case, &cfg, &mut cnt, viols),
+            ("builder", _) => run_builder(case, &cfg, &mut cnt, viols),
             ("layout", "f32") => run_layout::<f32>(case, &cfg, &TOLS_F32, &mut cnt, viols),
             ("layout", _) => run_layout::<f64>(case, &cfg, &TOLS_F64, &mut cnt, viols),
             (_, "f32") => run_fit::<f32>(case, &cfg, &TOLS_F32, &mut cnt, viols) && case.n_clusters >= 2,
@@ -1166,6 +1328,8 @@ fn run_case(case: &Case, viols: &mut Vec<Violation>) -> (Cnt, u64, u64) {
         "ladder."
     } else if case.kind == "layout" {
         "layout."
+    } else if case.kind == "builder" {
+        "builder."
     } else if case.float == "f32" {
         "f32."
     } else {
@@ -1204,6 +1368,7 @@ fn main() {
          f32 sweep: GaussianMixtureModel<f32> on the separated / overlapping members with <= 2 features, components 1..3, both initialisers, seeds 0..3 / 0..7, reg_covar {1e-6,1e-3,0.1}, same remaining grid, same oracles with f32 tolerances (reference in f64 from the published f32 parameters and the f32-rounded data / queries). \
          memory layouts: separated / overlapping / anisotropic members with 2..3 (quick) / 2..4 (thorough) features, k 1..3, both initialisers, seeds 0..1 / 0..3, reg_covar {1e-6,1e-3}, f64 and f32: the records given to fit and the observations given to predict / predict_proba (training rows, means, points 10 / 39 / 100 sd out) as column-major owned array, transposed view of a feature-major array, reversed-row view of a reversed copy, every-second-row view of an array whose filler rows are NaN, each compared with the standard-layout run. \
          size thresholds: members replicated to 1025 / 4097 rows (2 quick, 9 thorough incl. 2 in f32), k 2..3, both initialisers, seeds 0..1 / 0..3, reg_covar {1e-6,1e-3}, complete oracle set with every training row as a query. \
+         builder histories: 3 members x k 2..3 x both initialisers x seeds 0..1 / 0..5 x reg_covar {1e-3,0.1} x tolerance {1e-5,1e-2} x n_runs 3 x max_n_iterations {50,7}: the parameter set is built in all 720 orders of {with_rng, tolerance, reg_covariance, n_runs, max_n_iterations, init_method} and in 12 histories that write a decoy value first; the checked parameters must publish the configured values, and for 24 histories (with_rng at every position with the other setters ascending / descending, and the decoy histories) the fit must equal the canonical-order fit bit for bit. \
          budget ladder (outcome kind): separated / overlapping / anisotropic members with <= 2 (quick) / 3 (thorough) features, same k / init / seeds, reg_covar {1e-6,0.1}, tolerance {1e-3,1e-5}, n_runs {1,3}, max_n_iterations m in {1,2,3,5,10}: m = 1 must be Err; with n_runs = 1 an Ok at m must be reproduced bit-identically by m + 10. \
          evaluation = one fit with all its parameter and query oracles; non-trivial = the fit returned a model with >= 2 components (an Err is an accepted outcome and counted per error kind); distinct by construction of the grid.",
     );
@@ -1217,6 +1382,7 @@ fn main() {
     ctx.assume("f32 sweep tolerances: rows / weights sum 1e-5 / 5e-5, bounding box and moments 5e-5 relative (moment floor (1e-4 (1 + max|x|))^2), symmetry 1e-5, diagonal >= reg (1 - 1e-5), |P S - I| <= 1e-5 cond + 1e-5 (indeterminate above 1e-2), posterior bound 1e-5 * cond * (mahalanobis^2 + d) + 1e-5 |log density| (compared with k * bound + 1e-5, indeterminate above 1e-2), tie set 1e-6, arg-max margin 2 * bound + 1e-6 (1 + |max|), exp subnormal below -87.34 and 0 below -104; a covariance whose f64 Cholesky fails but whose smallest eigenvalue is above -1e-5 * largest is indeterminate");
     ctx.assume("layouts: fitted parameters must agree with the standard-layout fit within 1e6 * eps of the largest parameter (same data and seed; only the rounding order may differ, amplified by the EM iterations; an Err must stay the same kind of Err); predict_proba rows must agree within 16 eps d k (max squared Mahalanobis distance + |ln w| + 50) + 4 eps (bit-identical rows are counted), predict labels exactly unless the two probabilities are tied within that bound (indeterminate)");
     ctx.assume("datasets of more than 60 rows: the tolerances of the quantities accumulated over the rows (weights sum, bounding box, moment identities) are multiplied by n / 60");
+    ctx.assume("builder histories: every setter only writes its own field and with_rng only replaces the generator (last write wins); rng compared through the first u64 of a clone; fits compared with == on every parameter (same data, seed and logical parameters => same arithmetic)");
     ctx.assume("budget ladder: fit is deterministic for a fixed seed (the rng is consumed only by the initialisation, cloned from the parameters at every call) and with n_runs = 1 an Ok result means the EM loop broke at an iteration < max_n_iterations, so a larger budget is never used: models compared with == on every f64 of weights, means, covariances, precisions; with max_n_iterations = 1 the only lower-bound change is measured against -inf (or is NaN), which is never below a tolerance");
 
     let members = catalogue(ctx.thorough());
@@ -1323,6 +1489,30 @@ fn main() {
         }
     }
     ctx.extra("layout_catalogue_members", json!(layout_members));
+    // builder histories (all values differ from the defaults 1e-3 / 1e-6 / 1 / 100 so that a reset is visible)
+    for id in ["overlapping-d2-b2-r1", "separated-d1-b3-r0", "anisotropic-d3-b3-r1"] {
+        let m = members.iter().find(|m| m.id == id).expect("catalogue member");
+        for k in 2..=3usize {
+            for init in ["kmeans", "random"] {
+                for seed in 0..ctx.pick(2u64, 6u64) {
+                    cases.push(Case {
+                        dataset: m.id.clone(),
+                        family: m.family.to_string(),
+                        data: m.data.clone(),
+                        n_clusters: k,
+                        init: init.to_string(),
+                        seeds: vec![seed],
+                        reg_covars: vec![1e-3, 0.1],
+                        tolerances: vec![1e-5, 1e-2],
+                        n_runs: vec![3],
+                        max_iters: vec![50, 7],
+                        kind: "builder".to_string(),
+                        float: "f64".to_string(),
+                    });
+                }
+            }
+        }
+    }
     // size thresholds: catalogue members replicated (with a small deterministic offset per replica) to
     // 1025 / 4097 rows, through the complete oracle set of the sweep
     let mut big: Vec<(String, &Member, usize, &str)> = Vec::new();
@@ -1407,7 +1597,7 @@ fn main() {
         }
     }
     ctx.extra("family_x_k_x_init_combinations_with_a_successful_fit", json!(families_ok.lock().unwrap().len()));
-    let fits_run = ["fits", "f32.fits", "ladder.fits", "layout.fits"].iter().map(|k| t.0.get(*k).cloned().unwrap_or(0)).sum::<u64>();
+    let fits_run = ["fits", "f32.fits", "ladder.fits", "layout.fits", "builder.fits"].iter().map(|k| t.0.get(*k).cloned().unwrap_or(0)).sum::<u64>();
     if fits_run != expected_fits {
         ctx.capped(&format!("{} of {} enumerated fits were run", fits_run, expected_fits));
     }
